@@ -158,6 +158,7 @@ def main():
     try:
         cases = list(mod.generate(rng, a.tier, seed))
         rechecked = core.recheck_sample(cases, random.Random(f"{pid}-{seed}-recheck"))
+        rechecked += core.alias_recheck()
         replies = core.run_driver([c.lines for c in cases]) if not build_failed or os.path.exists(core.DRIVER) else [[] for _ in cases]
     except core.InfraError as e:
         print("INFRA:", e)
